@@ -86,25 +86,105 @@ def run(report, index, tier):
                     ok = (cls, f.name) in allowed
                     detail = 'the capture flag is read outside the ' \
                         'comment routing code: the parse can depend on it'
-                    if ok and f.name == '_token':
-                        tests = enclosing_tests(f, n)
-                        ok = any('COMMENTS' in t and 'tok.type in' in t and
-                                 fld == 'body' for t, fld in tests)
-                        detail = 'in Lexer._token the flag is read outside ' \
-                            'the `tok.type in COMMENTS` branch: non-comment ' \
-                            'tokens are affected by it'
+                    if cls == 'Lexer':
+                        # decided by evaluation below (non-interference
+                        # of the flags on the token stream)
+                        continue
                     if ok and f.name == 'setpos':
-                        tests = enclosing_tests(f, n)
-                        # the flag may only guard the set_comments call
-                        parent_ifs = [x for x in ast.walk(f) if isinstance(
-                            x, ast.If) and n in ast.walk(x.test)]
-                        ok = all(len(x.body) == 1 and 'set_comments' in
-                                 ast.unparse(x.body[0]) and not x.orelse
-                                 for x in parent_ifs) and bool(parent_ifs)
-                        detail = 'in Node.setpos the flag guards more than ' \
-                            'the set_comments call'
+                        continue    # decided by evaluation below
                     r1.check(ok, '%s.%s reads %s' % (cls, f.name, n.attr),
                              construct, detail, where=where)
+    # the flags do not interfere with the token stream: Lexer.token is
+    # evaluated from its source on the raw stream [T, ID, <end>] for every
+    # token type T under the four flag combinations; the non-comment
+    # tokens returned must be the same objects in the same order
+    lmeth = lm.class_methods('Lexer')
+    tokfn = lmeth.get('token')
+    if tokfn is None:
+        raise AnalysisError('Lexer.token vanished')
+    from engine.lexmodel import LexModel
+    types = sorted(set(M.lexmodel.tokens) | {
+        'LINE_TERMINATOR', 'LINE_COMMENT', 'BLOCK_COMMENT'})
+
+    def token_stream(ttype, wc, yc):
+        stream = [Obj('LexToken', type=ttype, value='t', lineno=1,
+                      lexpos=0, colno=1),
+                  Obj('LexToken', type='ID', value='b', lineno=1,
+                      lexpos=2, colno=3), None]
+        it = iter(stream)
+        from .c04 import mk_lexer_obj
+        lexer = mk_lexer_obj(lm=M.lexmodel)
+        lexer.with_comments = wc
+        lexer.yield_comments = yc
+        lexer.lexer = Obj('PlyLexer', lexdata='ab', lexpos=0)
+        lexer._get_update_token = ('pyfunc', lambda it=it: next(it))
+        got = []
+        for _ in range(3):
+            ev = Evaluator(lm, 'Lexer', lmeth, {})
+            ret, _ys = ev.call(tokfn, [], self_obj=lexer)
+            if ret is None:
+                break
+            got.append(ret)
+        return stream, got
+    for ttype in types:
+        results = {}
+        for wc in (False, True):
+            for yc in (False, True):
+                try:
+                    stream, got = token_stream(ttype, wc, yc)
+                    results[(wc, yc)] = [
+                        stream.index(t) for t in got
+                        if t.type not in ('LINE_COMMENT', 'BLOCK_COMMENT')]
+                except Raised as e:
+                    results[(wc, yc)] = 'raises %s' % e.text
+        base = results[(False, False)]
+        r1.check(all(v == base for v in results.values()),
+                 'token stream %s independent of the flags' % ttype,
+                 'Lexer.token() on [%s, ID] under the four flag '
+                 'combinations' % ttype,
+                 'the non-comment tokens returned depend on the capture '
+                 'flags: %r' % (results,),
+                 where='lexers/es5.py:Lexer.token / _token')
+    # Node.setpos: the flag decides only whether set_comments is called
+    _, setpos = am.find_method('Node', 'setpos')
+    if setpos is None:
+        raise AnalysisError('Node.setpos vanished')
+    outcomes = {}
+    for flag in (False, True):
+        for slot_is_token in (False, True):
+            calls = []
+            node = Obj('Node',
+                       findpos=('pyfunc', lambda p_, i: (i * 10, 1, i)),
+                       set_comments=('pyfunc',
+                                     lambda p_, i: calls.append(i)))
+            slot = Obj('LexToken') if slot_is_token else Obj('YaccSymbol')
+            pobj = Obj('YaccProduction', lexer=Obj('Lexer',
+                                                   with_comments=flag),
+                       slice=[None, slot, Obj('LexToken')],
+                       _items=[None, 'var', Obj('X')])
+            ev = Evaluator(asttypes, 'Node', {}, {
+                'defaultdict': lambda f_: __import__(
+                    'collections').defaultdict(list)},
+                is_subclass=lambda c, b: c == b)
+            ev.iter_hook = lambda o: list(o._items)
+            try:
+                ev.call(setpos, [pobj, 1, (('=', 2),)], self_obj=node)
+                fields = (node.lexpos, node.lineno, node.colno,
+                          dict(node._token_map))
+            except Raised as e:
+                fields = 'raises %s' % e.text
+            outcomes[(flag, slot_is_token)] = (fields, list(calls))
+    for st_ in (False, True):
+        off, on = outcomes[(False, st_)], outcomes[(True, st_)]
+        r1.check(off[0] == on[0] and off[1] == [] and
+                 on[1] == ([1] if st_ else []),
+                 'setpos %s slot' % ('token' if st_ else 'nonterminal'),
+                 'Node.setpos with capture off / on, anchor slot is a %s'
+                 % ('token' if st_ else 'nonterminal'),
+                 'capture off gives %r, capture on gives %r: the flag must '
+                 'only decide whether set_comments is called (on a token '
+                 'slot), never the recorded positions' % (off, on),
+                 where='asttypes.py:Node.setpos')
     # writes of set_comments
     _, setc = am.find_method('Node', 'set_comments')
     if setc is None:
